@@ -120,6 +120,8 @@ pub fn run_client_racy(cfg: &ScenCfg, out: &mut RunOut) {
     let mut subs: BTreeMap<usize, Sub> = BTreeMap::new();
     let mut wire: Vec<WireFrame> = Vec::new();
     let mut replies: Vec<Reply> = Vec::new();
+    // every reply frame the peer has written, with its connection
+    let mut sent_frames: Vec<(usize, Vec<u8>)> = Vec::new();
     let mut faults: Vec<Fault> = Vec::new();
     let mut conns: Vec<ConnState> = Vec::new();
     let mut enables: Vec<u64> = Vec::new();
@@ -238,6 +240,7 @@ pub fn run_client_racy(cfg: &ScenCfg, out: &mut RunOut) {
                                     _ => to_deadline.saturating_sub(1),
                                 };
                                 let f = mbap_frame(tx, unit, &r);
+                                sent_frames.push((ci, f.clone()));
                                 let at = if chance(1, 4) {
                                     // the reply arrives in two segments, the second one later
                                     let cut = 1 + choose(f.len() as u32 - 1) as usize;
@@ -252,6 +255,7 @@ pub fn run_client_racy(cfg: &ScenCfg, out: &mut RunOut) {
                             1 => {
                                 let e = pick_exc_code();
                                 let r = vec![req.fc() | 0x80, e];
+                                sent_frames.push((ci, mbap_frame(tx, unit, &r)));
                                 let at = conns[ci].peer.write_delayed_at(&mbap_frame(tx, unit, &r), 0);
                                 replies.push(Reply { conn: ci, ready_at: at, tx, pdu: r, answers: (unit, pdu_req.clone()) });
                             }
@@ -266,8 +270,16 @@ pub fn run_client_racy(cfg: &ScenCfg, out: &mut RunOut) {
                                 // else silence: the request will time out
                             }
                             3 => {
-                                // a stale frame first, then the real reply
-                                let stale = mbap_frame(tx.wrapping_sub(1 + choose(3) as u16), unit, &super::client::correct_reply(&req));
+                                // a stale frame first, then the real reply; the stale one is either an older
+                                // transaction id of this connection or a reply frame replayed from an earlier
+                                // connection (ids are never reused, so it cannot be taken for the answer)
+                                let older: Vec<&Vec<u8>> = sent_frames.iter().filter(|(c, _)| *c != ci).map(|(_, f)| f).collect();
+                                let stale = if !older.is_empty() && chance(1, 2) {
+                                    out.probe("racy_replayed_frame_from_earlier_connection");
+                                    older[choose(older.len() as u32) as usize].clone()
+                                } else {
+                                    mbap_frame(tx.wrapping_sub(1 + choose(3) as u16), unit, &super::client::correct_reply(&req))
+                                };
                                 conns[ci].peer.write(&stale);
                                 let r = super::client::correct_reply(&req);
                                 let at = conns[ci].peer.write_delayed_at(&mbap_frame(tx, unit, &r), 1000);
